@@ -7,6 +7,8 @@ import (
 	"time"
 	"unicode/utf8"
 
+	basicpb "github.com/google/fhir/go/proto/google/fhir/proto/r4/core/resources/basic_go_proto"
+	bcrpb "github.com/google/fhir/go/proto/google/fhir/proto/r4/core/resources/bundle_and_contained_resource_go_proto"
 	"github.com/verily-src/fhirpath-go/fhirpath"
 	"github.com/verily-src/fhirpath-go/fhirpath/compopts"
 	"github.com/verily-src/fhirpath-go/fhirpath/evalopts"
@@ -18,6 +20,7 @@ import (
 	"github.com/verily-src/fhirpath-go/internal/fhir"
 	"google.golang.org/protobuf/proto"
 	"google.golang.org/protobuf/reflect/protoreflect"
+	"google.golang.org/protobuf/types/known/anypb"
 )
 
 // ctxFromTree derives non-vacuous paths by category from a resource's tree.
@@ -278,6 +281,15 @@ func c01Stream2(env *core.Env) {
 func c01Mixed(env *core.Env, group string, tns []string, seed uint64, viaContained bool) {
 	defer env.In("mixed", group, tns, seed, viaContained)()
 	res, tn, members := buildMixed(group, tns, seed, viaContained)
+	// plus a wrapper that holds no resource (a valid, if useless, message)
+	switch b := res.(type) {
+	case *bcrpb.Bundle:
+		b.Entry = append(b.Entry, &bcrpb.Bundle_Entry{Resource: &bcrpb.ContainedResource{}}, &bcrpb.Bundle_Entry{})
+	case *basicpb.Basic:
+		if a, err := anypb.New(&bcrpb.ContainedResource{}); err == nil {
+			b.Contained = append(b.Contained, a)
+		}
+	}
 	env.Case()
 	env.Cover("stream2/mixed")
 	// child names of the shared backbone element, over all member types
